@@ -1314,6 +1314,9 @@ impl Scanner {
             violated = true;
         }
         if !violated {
+            if s.order.wide() {
+                self.rep.count("wide_ids_scans_held", 1);
+            }
             if s.long {
                 self.rep.count(
                     if s.by_name() {
